@@ -55,10 +55,56 @@ def type_str(t):
     return t.__name__ + ("~enc" if getattr(t, "_encrypted", False) else "")
 
 
+def valid_norm(vv):
+    """the allowed set a value error names (a ValidValues object), as merged closed intervals 'lo..hi,v,…';
+    a leading '?' marks anything unexpected in it"""
+    from tpmstream.spec.common.values import NamedRange
+    ivs = []
+    bad = False
+    for v in getattr(vv, "_values", None) or ():
+        if isinstance(v, range):
+            if v.step != 1:
+                bad = True
+            elif len(v):
+                ivs.append((v.start, v.stop - 1))
+        elif isinstance(v, NamedRange):
+            if v._start < v._end:
+                ivs.append((v._start, v._end - 1))
+        elif isinstance(v, type) and hasattr(v, "class_iter"):
+            for m in v:
+                if isinstance(m, NamedRange):
+                    if m._start < m._end:
+                        ivs.append((m._start, m._end - 1))
+                elif hasattr(m, "_value"):
+                    ivs.append((int(m._value), int(m._value)))
+                else:
+                    bad = True
+        elif isinstance(v, type):
+            continue                      # a class that is no enumeration: never equal to an integer
+        elif isinstance(v, bool):
+            bad = True
+        elif isinstance(v, int) or hasattr(v, "_value"):
+            x = int(v._value) if hasattr(v, "_value") else int(v)
+            ivs.append((x, x))
+        else:
+            bad = True
+    if not hasattr(vv, "_values"):
+        bad = True
+    ivs.sort()
+    out = []
+    for lo, hi in ivs:
+        if out and lo <= out[-1][1] + 1:
+            out[-1] = (out[-1][0], max(out[-1][1], hi))
+        else:
+            out.append((lo, hi))
+    return ("?" if bad else "") + ",".join(str(lo) if lo == hi else f"{lo}..{hi}" for lo, hi in out)
+
+
 def err_str(e):
     if isinstance(e, ValueConstraintViolatedError):
         c = e.constraint
-        return f"ValueConstraintViolatedError path={path_str(c.constraint_path)} type={c.tpm_type.__name__} value={'None' if e.value is None else int(e.value)}"
+        return (f"ValueConstraintViolatedError path={path_str(c.constraint_path)} type={c.tpm_type.__name__} "
+                f"value={'None' if e.value is None else int(e.value)} valid={valid_norm(getattr(c, 'valid_values', None))}")
     if isinstance(e, SizeConstraintExceededError):
         c = e.constraint
         return (f"SizeConstraintExceededError cpath={path_str(c.constraint_path)} max={int(c.size_max)} "
@@ -328,7 +374,9 @@ def crash_site(mode, tname, cc, enc, data):
     except Exception as e:  # noqa
         frames = [f for f in traceback.extract_tb(e.__traceback__) if "tpmstream" in f.filename]
         f = frames[-1] if frames else None
-        return type(e).__name__, (f.name if f else "?")
+        # the site: innermost function, plus the first words of the message (two asserts in one function are two sites)
+        slug = _re.sub(r"[^A-Za-z0-9]+", "_", str(e))[:40].strip("_")
+        return type(e).__name__, (f.name if f else "?") + (":" + slug if slug else "")
     return None
 
 
@@ -542,7 +590,10 @@ def impl_print(mode, tname, cc, enc, data):
             t = t.strip() or "-"
             val = val if val is not None else ""
             if t == "-":
-                val = val.split("  ")[0]          # attribute rows: the bits, not the free-text details
+                # attribute rows: the bits, and of the free-text details the part up to the colon (the code's name, the
+                # severity, "Parameter No. n", …; the prose description after the colon is not part of any layout table)
+                parts = val.split("  ", 1)
+                val = parts[0] + ("  " + parts[1].split(":")[0] if len(parts) > 1 and parts[1].strip() else "")
             out.append(f"P {t} {len(indent) // 4} {name.strip()} {hx.strip() or '-'} {val}")
     except Exception as e:  # noqa
         out.append(f"P crash {type(e).__name__}")
